@@ -29,20 +29,17 @@ pub struct EDev {
     pub legacy_path: bool,
     /// F-C04-raw-string-literal: a string literal denotes its source text between the quotes, undecoded.
     pub raw_string_literal: bool,
-    /// F-C10-regex-backslash: every `\\` pair in a pattern is collapsed to `\` before compilation.
-    pub regex_backslash_hack: bool,
     /// F-C05-filter-on-current: inside a filter, a filter selector applied directly to `@` evaluates its
     /// expression on `@` itself and yields a Boolean instead of a nodelist.
     pub filter_on_current_bool: bool,
 }
 
 impl EDev {
-    pub const NAMES: [&'static str; 6] = [
+    pub const NAMES: [&'static str; 5] = [
         "union_selector_major",
         "legacy_name_lookup",
         "legacy_path",
         "raw_string_literal",
-        "regex_backslash_hack",
         "filter_on_current_bool",
     ];
     pub fn from_mask(m: u32) -> EDev {
@@ -51,11 +48,10 @@ impl EDev {
             legacy_name_lookup: m & 2 != 0,
             legacy_path: m & 4 != 0,
             raw_string_literal: m & 8 != 0,
-            regex_backslash_hack: m & 16 != 0,
-            filter_on_current_bool: m & 32 != 0,
+            filter_on_current_bool: m & 16 != 0,
         }
     }
-    pub const ALL_MASK: u32 = 63;
+    pub const ALL_MASK: u32 = 31;
 }
 
 #[derive(Clone, Debug)]
@@ -496,7 +492,9 @@ impl<'a> Ctx<'a> {
                     (Some(Value::String(s)), Some(Value::String(p))) => (s.clone(), p.clone()),
                     _ => return Ok(FnRes::Logical(false)),
                 };
-                let p = if self.dev.regex_backslash_hack { p.replace("\\\\", "\\") } else { p };
+                // F-raw-string-literal: a pattern written as a literal keeps its escaping backslashes and the
+                // implementation compensates by collapsing every `\\\\` pair to `\\`
+                let p = if self.dev.raw_string_literal && matches!(f.args[1], Expr::BareLit(Lit::Str { .. })) { p.replace("\\\\", "\\") } else { p };
                 match regex_ref::parse(&p) {
                     Ok(re) => Ok(FnRes::Logical(if f.name == "match" {
                         regex_ref::full_match(&re, &s)
